@@ -32,6 +32,13 @@ def _template(tspec):
     if tspec.get("nan_content"):
         data[...] = np.nan
     coords = {"time": t, "frequency": f}
+    if tspec.get("step_attrs"):
+        # coordinates carry a `step` attribute, as arrays built by create_*_range / compute_spectrogram do;
+        # "stale" = the attribute describes the spacing before a decimation (xarray keeps attrs on isel)
+        k = 0.5 if tspec["step_attrs"] == "stale" else 1.0
+        st = (t[1] - t[0]) * k if len(t) > 1 else 1.0
+        sf = (f[1] - f[0]) * k if len(f) > 1 else 1.0
+        coords = {"time": xr.Variable("time", t, attrs={"step": float(st), "units": "s"}), "frequency": xr.Variable("frequency", f, attrs={"step": float(sf), "units": "Hz"})}
     if "channel" in dims:
         coords["channel"] = [0, 1]
     arr = xr.DataArray(data, dims=dims, coords=coords)
@@ -284,6 +291,8 @@ def run(ctx):
         t = _axis(rng, nt, rng.choice(["regular", "regular", "irregular"]), rng.choice([0.0, 0.5, 10.0]), rng.choice([1.0, 0.1, 0.01, 256 / 44100]))
         f = _axis(rng, nf, rng.choice(["regular", "regular", "irregular"]), rng.choice([0.0, 0.0, 1000.0]), rng.choice([125.0, 1000.0, 86.1328125]))
         tspec = {"time": t, "freq": f, "order": order, "content_seed": rng.getrandbits(20), "nan_content": rng.random() < 0.1}
+        if rng.random() < 0.3:
+            tspec["step_attrs"] = rng.choice(["consistent", "stale"])
         if rng.random() < 0.15:
             tspec["names"] = rng.choice([["t", "f"], ["x", "y"], ["frequency", "time"]])   # the last one swaps the usual names on purpose
         ng = rng.choice([1, 1, 2, 3, 5])
